@@ -11,7 +11,12 @@ package main
 // earlier behaviours (pooled formatters, pooled attribute slices, caches) stays, and must not
 // matter.  Events use the public API only: setters / New / With... in the order the form says,
 // the logging methods (Info.., XxxContext, LogAttrs), RegisterLevel, SetLevelOutputWidth,
-// runtime.GC.  After a configuration event the public getters are recorded; for every record
+// runtime.GC.  DESTINATIONS: every logger writes to the io.Writers its slot is wired to (event Wire,
+// DestForms of the specification): passive ones, and destinations that LOG - inside Write, before
+// they look at their argument, they emit a record through a logger of the script (an auditing /
+// rotating writer) and only then copy what they were handed.  One Emit therefore yields several
+// deliveries (EncoderHist!Deliveries): the trace line describes the first destination's copy of
+// the record, its "sub" every other one.  After a configuration event the public getters are recorded; for every record
 // the payload is projected by the independent decoders of fam_encoder_dec.go /
 // fam_encoder_color.go exactly as in the per-record check.  Nothing here decides pass/fail:
 // the trace is validated by TLC against spec/EncoderHistTrace.tla.
@@ -56,6 +61,56 @@ type enchClass struct {
 	Via    string     `json:"via"` // method | ctx | logattrs
 }
 
+// one destination of a destination form (DestForms[w][k] of the specification)
+type enchDestSpec struct {
+	Log bool `json:"log"` // logs a record of class R through the logger of slot L before it reads its argument
+	L   int  `json:"l"`
+	R   int  `json:"r"`
+}
+
+// enchDest is an io.Writer a logger of slot `slot` is wired to (its k-th destination).
+type enchDest struct {
+	s      *enchState
+	slot   int
+	k      int // 1-based
+	spec   enchDestSpec
+	active bool // inside its own Write: it does not log again
+	stray  int  // Write calls outside any emission of its slot
+}
+
+// enchFrame is one record being logged: what each destination of its logger found in its argument.
+type enchFrame struct {
+	slot   int
+	depth  int
+	salt   int
+	ei     int
+	chunks [][][]byte // per destination (index k-1): the arguments of its Write calls, copied when it read them
+}
+
+func (d *enchDest) Write(p []byte) (int, error) {
+	s := d.s
+	var fr *enchFrame
+	if n := len(s.frames); n > 0 && s.frames[n-1].slot == d.slot {
+		fr = s.frames[n-1]
+	}
+	if fr == nil {
+		d.stray++
+		return len(p), nil
+	}
+	if d.spec.Log && !d.active {
+		// report first, consume the argument afterwards: p is ours until we return
+		d.active = true
+		func() {
+			defer func() { d.active = false }()
+			ents, dets := s.emitRecord(fr.ei, d.spec.L, d.spec.R, fr.salt*8+d.k+5000000*(fr.depth+1), fr.depth+1)
+			s.sub = append(s.sub, ents...)
+			s.subDet = append(s.subDet, dets...)
+		}()
+	}
+	fr.chunks[d.k-1] = append(fr.chunks[d.k-1], append([]byte(nil), p...))
+	return len(p), nil
+}
+
 type enchSlot struct {
 	Mode  string     `json:"mode"`
 	Named bool       `json:"named"`
@@ -78,16 +133,17 @@ type enchEvent struct {
 	Named []bool   `json:"named,omitempty"`
 	FG    string   `json:"fg,omitempty"` // op "SetColors": class of the foreground ("none" | "fg") ...
 	BG    string   `json:"bg,omitempty"` // ... and of the background ("none" | "bg" | "attr")
-	S     int      `json:"s,omitempty"` // salt of an Emit: seeds the concretisation, so that a record keeps its bytes when the history around it is shrunk
+	S     int      `json:"s,omitempty"`  // salt of an Emit: seeds the concretisation, so that a record keeps its bytes when the history around it is shrunk
 }
 
 type enchScript struct {
-	Seed       int           `json:"seed"`
-	Base       int           `json:"base"` // offset of the behaviour numbers (fresh custom severities)
-	Slots      []enchSlot    `json:"slots"`
-	Forms      []enchForm    `json:"forms"`
-	Classes    []enchClass   `json:"classes"`
-	Behaviours [][]enchEvent `json:"behaviours"`
+	Seed       int              `json:"seed"`
+	Base       int              `json:"base"` // offset of the behaviour numbers (fresh custom severities)
+	Slots      []enchSlot       `json:"slots"`
+	Forms      []enchForm       `json:"forms"`
+	Classes    []enchClass      `json:"classes"`
+	DestForms  [][]enchDestSpec `json:"destforms"` // DestForms[w-1]: the destinations of form w (form 1: one passive destination)
+	Behaviours [][]enchEvent    `json:"behaviours"`
 }
 
 type enchReg struct {
@@ -116,6 +172,42 @@ type enchState struct {
 	det     *traceOut
 	flags   slog.Flags
 	origLvl slog.Level
+
+	destForm []int            // slot -> destination form in force (1-based)
+	dests    [][]*enchDest    // slot -> its destinations
+	frames   []*enchFrame     // records being logged, innermost last
+	sub      []map[string]any // deliveries of the current Emit other than the first destination's copy of the record
+	subDet   []map[string]any
+}
+
+var enchPassive = []enchDestSpec{{}}
+
+func (s *enchState) destSpecs(w int) []enchDestSpec {
+	if w >= 1 && w <= len(s.sc.DestForms) && len(s.sc.DestForms[w-1]) > 0 {
+		return s.sc.DestForms[w-1]
+	}
+	return enchPassive
+}
+
+// setDests makes the destination objects of form w for a slot (not yet attached to a logger)
+func (s *enchState) setDests(slot, w int) {
+	s.destForm[slot-1] = w
+	var ds []*enchDest
+	for i, sp := range s.destSpecs(w) {
+		ds = append(ds, &enchDest{s: s, slot: slot, k: i + 1, spec: sp})
+	}
+	s.dests[slot-1] = ds
+}
+
+// attach points the logger at the destinations of its slot, in order, for both devices
+func (s *enchState) attach(slot int, l *slog.Entry) {
+	ds := s.dests[slot-1]
+	l.SetWriter(ds[0])
+	l.SetErrorWriter(ds[0])
+	for _, d := range ds[1:] {
+		l.AddWriter(d)
+		l.AddErrorWriter(d)
+	}
 }
 
 func (s *enchState) concrete(sev int) int {
@@ -173,8 +265,7 @@ func enchOpt(c enchCall) slog.Opt {
 // severity without touching the process-wide debug / trace switches (AlwaysLevel)
 func (s *enchState) adopt(slot int, l *slog.Entry) {
 	lv := s.live[slot-1]
-	l.SetWriter(encCap)
-	l.SetErrorWriter(encCap)
+	s.attach(slot, l)
 	l.SetLevel(slog.AlwaysLevel)
 	if len(lv.own) > 0 {
 		cp := append(slog.Attrs(nil), lv.own...)
@@ -214,6 +305,12 @@ func (s *enchState) reset(b int, init *enchEvent) {
 	s.colored = map[int]bool{}
 	s.reg = map[int]*enchReg{}
 	s.live = make([]*enchLive, len(s.sc.Slots))
+	s.destForm = make([]int, len(s.sc.Slots))
+	s.dests = make([][]*enchDest, len(s.sc.Slots))
+	s.frames = nil
+	for i := range s.sc.Slots {
+		s.setDests(i+1, 1)
+	}
 	modes := make([][2]bool, len(s.sc.Slots))
 	named := make([]bool, len(s.sc.Slots))
 	for i, sl := range s.sc.Slots {
@@ -518,14 +615,34 @@ func enchDo(l *slog.Entry, via string, sev int, msg string, args []any) (lo, hi 
 	return
 }
 
+// emit executes one Emit event: the record itself and - when destinations log - everything they emit
+// from inside their Write.  One trace line: the first destination's copy of the record; "sub": the
+// other deliveries in the order of EncoderHist!Deliveries.
 func (s *enchState) emit(ei int, e enchEvent) {
-	cl := s.sc.Classes[e.R-1]
-	slot := e.L
+	s.sub, s.subDet = nil, nil
+	s.frames = s.frames[:0]
+	ents, dets := s.emitRecord(ei, e.L, e.R, e.S, 0)
+	line, det := ents[0], dets[0]
+	line["op"] = "Emit"
+	sub := append(s.sub, ents[1:]...)
+	subDet := append(s.subDet, dets[1:]...)
+	if len(sub) > 0 {
+		line["sub"] = sub
+		det["sub"] = subDet
+	}
+	s.sub, s.subDet = nil, nil
+	s.emitLine(line, det)
+}
+
+// emitRecord logs one record of class r through the logger of slot `slot` (depth 0: the Emit event itself,
+// > 0: from inside a destination's Write) and describes it once per destination of that logger.
+func (s *enchState) emitRecord(ei, slot, rid, salt, depth int) (ents, dets []map[string]any) {
+	cl := s.sc.Classes[rid-1]
 	lv := s.live[slot-1]
 	l := lv.l
 	format := enchGetterMode(l)
 	sev := s.concrete(cl.Sev)
-	seed := int64(s.sc.Seed)*1000003 + int64(e.S)*104729 + 13
+	seed := int64(s.sc.Seed)*1000003 + int64(salt)*104729 + 13
 	c := &encCase{}
 	c.ID = ei
 	c.Fmt = format
@@ -566,7 +683,7 @@ func (s *enchState) emit(ei int, e enchEvent) {
 	c.Name = encName{Has: r.name != "", Cls: []string{}}
 
 	args := make([]any, 0, 2*len(attrs))
-	pairs := e.S%3 == 2
+	pairs := salt%3 == 2
 	for i, a := range attrs {
 		if pairs && argNodes[i].Kind != "group" && a.Key() != "" {
 			args = append(args, a.Key(), argNodes[i].conc)
@@ -579,7 +696,9 @@ func (s *enchState) emit(ei int, e enchEvent) {
 	} else {
 		slog.SetFlags(s.flags)
 	}
-	encCap.chunks = encCap.chunks[:0]
+	ndest := len(s.dests[slot-1])
+	fr := &enchFrame{slot: slot, depth: depth, salt: salt, ei: ei, chunks: make([][][]byte, ndest)}
+	s.frames = append(s.frames, fr)
 	t0 := time.Now()
 	panicked := ""
 	var lo, hi int
@@ -590,7 +709,7 @@ func (s *enchState) emit(ei int, e enchEvent) {
 				panicked = fmt.Sprint(e)
 			}
 		}()
-		if ls := encSiteOf(c.CFile, 1+e.S); c.CFile != "plain" && ls != nil {
+		if ls := encSiteOf(c.CFile, 1+salt); c.CFile != "plain" && ls != nil {
 			// the issuing statement sits behind a //line directive whose file name carries that class
 			lo, file, fn = ls.do(l, cl.Via, slog.Level(sev), r.msg, args)
 		} else {
@@ -598,51 +717,63 @@ func (s *enchState) emit(ei int, e enchEvent) {
 		}
 	}()
 	t1 := time.Now()
-	var payload []byte
-	for _, ch := range encCap.chunks {
-		payload = append(payload, ch...)
-	}
-	encTSOK = func(field string) bool {
-		for t := t0.Add(-time.Second); !t.After(t1.Add(time.Second)); t = t.Add(time.Second) {
-			if strings.Contains(field, t.Format("15:04:05")) || strings.Contains(field, t.UTC().Format("15:04:05")) {
-				return true
-			}
+	// the frame is done (a panic may have left inner ones behind)
+	for len(s.frames) > 0 {
+		top := s.frames[len(s.frames)-1]
+		s.frames = s.frames[:len(s.frames)-1]
+		if top == fr {
+			break
 		}
-		return false
 	}
 	site := encSite{file: file, line: lo, lineHi: hi, fn: fn}
-	var obs map[string]any
-	switch format {
-	case "json":
-		obs = encObsJSON(r, payload, site)
-	case "logfmt":
-		obs = encObsLogfmt(r, payload, site)
-	default:
-		obs = encObsColor(r, payload, site)
-	}
-	obs["writes"] = len(encCap.chunks)
-	lvltext, _ := obs["lvltext"].(string)
-	tagtext, _ := obs["tagtext"].(string)
-	delete(obs, "lvltext")
-	delete(obs, "tagtext")
-	if format == "color" {
-		obs["tagsrc"] = s.tagSources(cl.Sev, sev, tagtext)
-	} else {
-		obs["lvlsrc"] = s.nameSources(cl.Sev, sev, lvltext)
-	}
-	line := map[string]any{"op": "Emit", "l": slot, "r": e.R, "sev": cl.Sev, "msg": cl.Msg, "args": argNodes,
-		"caller": cl.Caller, "cfile": c.CFile, "obs": obs}
-	pl := string(payload)
-	if len(pl) > 1800 {
-		pl = pl[:900] + " ...[" + strconv.Itoa(len(payload)) + " bytes]... " + pl[len(pl)-700:]
-	}
 	m := r.msg
 	if len(m) > 300 {
 		m = m[:200] + "...[" + strconv.Itoa(len(r.msg)) + " bytes]"
 	}
-	s.emitLine(line, map[string]any{"payload": strconv.QuoteToASCII(pl), "len": len(payload), "fmt": format,
-		"msg": strconv.QuoteToASCII(m), "name": r.name, "site": strconv.QuoteToASCII(file), "level": sev, "tag": tagtext, "lvl": lvltext, "panic": panicked,
-		"unmatched": r.unmatched, "valid_utf8": utf8.Valid(payload)})
+	for k := 1; k <= ndest; k++ {
+		var payload []byte
+		for _, ch := range fr.chunks[k-1] {
+			payload = append(payload, ch...)
+		}
+		encTSOK = func(field string) bool {
+			for t := t0.Add(-time.Second); !t.After(t1.Add(time.Second)); t = t.Add(time.Second) {
+				if strings.Contains(field, t.Format("15:04:05")) || strings.Contains(field, t.UTC().Format("15:04:05")) {
+					return true
+				}
+			}
+			return false
+		}
+		r.unmatched = nil
+		var obs map[string]any
+		switch format {
+		case "json":
+			obs = encObsJSON(r, payload, site)
+		case "logfmt":
+			obs = encObsLogfmt(r, payload, site)
+		default:
+			obs = encObsColor(r, payload, site)
+		}
+		obs["writes"] = len(fr.chunks[k-1])
+		lvltext, _ := obs["lvltext"].(string)
+		tagtext, _ := obs["tagtext"].(string)
+		delete(obs, "lvltext")
+		delete(obs, "tagtext")
+		if format == "color" {
+			obs["tagsrc"] = s.tagSources(cl.Sev, sev, tagtext)
+		} else {
+			obs["lvlsrc"] = s.nameSources(cl.Sev, sev, lvltext)
+		}
+		ents = append(ents, map[string]any{"l": slot, "r": rid, "sev": cl.Sev, "msg": cl.Msg, "args": argNodes,
+			"caller": cl.Caller, "cfile": c.CFile, "obs": obs, "d": depth, "k": k})
+		pl := string(payload)
+		if len(pl) > 1800 {
+			pl = pl[:900] + " ...[" + strconv.Itoa(len(payload)) + " bytes]... " + pl[len(pl)-700:]
+		}
+		dets = append(dets, map[string]any{"payload": strconv.QuoteToASCII(pl), "len": len(payload), "fmt": format,
+			"msg": strconv.QuoteToASCII(m), "name": r.name, "site": strconv.QuoteToASCII(file), "level": sev, "tag": tagtext, "lvl": lvltext, "panic": panicked,
+			"unmatched": r.unmatched, "valid_utf8": utf8.Valid(payload), "d": depth, "k": k, "l": slot})
+	}
+	return
 }
 
 func enchMain(args []string) int {
@@ -694,6 +825,12 @@ func enchMain(args []string) int {
 			case "SetMinW":
 				slog.SetMessageMinimalWidth(e.M)
 				s.emitLine(map[string]any{"op": "SetMinW", "m": e.M}, nil)
+			case "Wire":
+				if e.L >= 1 && e.L <= len(s.live) {
+					s.setDests(e.L, e.W)
+					s.attach(e.L, s.live[e.L-1].l)
+				}
+				s.emitLine(map[string]any{"op": "Wire", "l": e.L, "w": e.W}, map[string]any{"dests": s.destSpecs(e.W)})
 			case "SetColors":
 				sev := s.concrete(e.C)
 				if e.C < 100 {
